@@ -4,8 +4,8 @@ import market_checks
 import runner_props
 
 PROP = "C10"
-LEAN_MODULES = ["PamsProps.C10", "PamsProps.SimE2E", "PamsProps.SrcRunner"]
-NAMESPACES = ["Pams.C10", "Pams.C10", "Pams.C10"]
+LEAN_MODULES = ["PamsProps.C10", "PamsProps.SimE2E", "PamsProps.SrcRunner", "PamsProps.SrcLogger"]
+NAMESPACES = ["Pams.C10", "Pams.C10", "Pams.C10", "Pams.C10"]
 DRIVERS = ["Market", "Runner", "Pure", "Sim", "PyRun"]
 TRUSTED = [
     "Logger.process dispatch by isinstance is observed, not modelled: a recording Logger subclass overrides write/bulk_write/write_and_direct_process/_process/process_* and delegates",
@@ -92,7 +92,7 @@ def run(ctx, model_available=True):
     # (T2) the translated source of the scheduler (where it writes its own records) under the mini-Python
     # semantics, against CPython
     import py_checks
-    return py_checks.merge(res, ctx, ["runner"], n_each=100, model_available=model_available)
+    return py_checks.merge(res, ctx, ["runner", "logger"], n_each=100, model_available=model_available)
 
 
 def search(ctx, res):
